@@ -206,8 +206,9 @@ def type_matches(name, value):
 
 
 def resolve_pointer(root, pointer):
-    if pointer in ("", "#", "#/"):
+    if pointer in ("", "#"):
         return root
+    # ("#/" is NOT the root: RFC 6901 reads it as the member whose name is the empty string)
     assert pointer.startswith("#/"), pointer
     node = root
     for part in pointer[2:].split("/"):
